@@ -237,6 +237,36 @@ func propC10(c *ctx) error {
 			}
 		}
 	}
+	// ---- a block without an expression (${}, ${ }, ${<tab><newline>}, a comment only) is not a value: rejected at load in
+	// every directive kind and position, never rendered as empty text
+	for _, blank := range []string{"", " ", "\t\n", "  \n  ", "/* c */", " // c\n", "\u00a0"} {
+		for _, shape := range []string{"${%s}", "a${%s}b", "${a}${%s}", "${%s}${a}", "/u/${%s}", "x ${%s}", "${%s} ", "${a} and ${%s} and ${a}"} {
+			for _, k := range []string{"text", "raw", "if", "title", "with", "range", "insert", "elif", "href", "define", "replace"} {
+				v := fmt.Sprintf(shape, blank)
+				if k == "with" {
+					v = "w := " + v
+				}
+				if k == "range" {
+					v = "x : " + v
+				}
+				src := `<p :` + k + `="` + v + `">x</p>`
+				if k == "elif" {
+					src = `<p :if="${a == 2}">y</p>` + src
+				}
+				rc := &renderCase{Files: [][2]string{{"t", src}}, Tpl: "t", Data: vMap(kv{"a", vInt(1)}).j}
+				out, _, err := compareRender(c, rc, true)
+				if err != nil {
+					return err
+				}
+				res.eval("blank|"+src, true, J{"tpl": src})
+				res.S3Checked++
+				res.count("blank_blocks")
+				if out.Load == "ok" {
+					res.violate(rc.toJ(), "load error", J{"load": out.Load, "st": out.St, "out": out.text()}, "a directive value with a block that holds no expression loads")
+				}
+			}
+		}
+	}
 	// ---- directive values: truncations
 	kinds := []string{"text", "raw", "if", "title", "with", "range", "insert", "elif"}
 	askCode := func(src string) (J, error) {
